@@ -117,6 +117,12 @@ class Item:
         ns = netdesc.nodes(d)
         self.objs['pair'] = (ns[0], ns[-1])
         self.objs['elem'] = d['branches'][len(d['branches']) // 2]['id']
+        from CircuitCalculator.Network.NodalAnalysis import node_analysis as na
+        try:                                     # a system of equations kept by the caller and solved repeatedly
+            self.objs['Ymat'] = np.array(na.nodal_analysis_coefficient_matrix(self.objs['net']), dtype=complex)
+            self.objs['Ivec'] = np.array(na.nodal_analysis_constants_vector(self.objs['net']), dtype=complex)
+        except Exception:
+            self.objs['Ymat'], self.objs['Ivec'] = np.eye(2, dtype=complex), np.ones(2, dtype=complex)
 
     def _build_circ(self):
         cd = self.desc['circuit']
@@ -140,6 +146,9 @@ class Item:
         self.objs['doc'] = C17._restore(copy.deepcopy(self.desc.get('doc')))
         self.objs['cdoc'] = C17._restore(copy.deepcopy(self.desc.get('cdoc')))
         self.objs['polar'] = copy.deepcopy(self.desc.get('polar'))
+
+    def _build_schem(self):
+        self.objs['sdict'] = copy.deepcopy(self.desc['sdict'])
 
     def _build_wave(self):
         from CircuitCalculator.SignalProcessing.periodic_functions import periodic_function
@@ -182,6 +191,8 @@ def ops_for(kind, desc):
             'passive_network_default': lambda o: trf.passive_network(o['net']),
             'switch_ground': lambda o: trf.switch_ground_node(o['net'], o['pair'][1]),
             'remove_element': lambda o: trf.remove_element(o['net'], o['elem']),
+            'calculate_node_voltages0': lambda o: na.calculate_node_voltages0(o['Ymat'], o['Ivec']),
+            'calculate_node_voltages0_transposed_view': lambda o: na.calculate_node_voltages0(o['Ymat'].T, o['Ivec']),
         }
     if kind == 'circ':
         ops = {
@@ -224,6 +235,13 @@ def ops_for(kind, desc):
             'dictify_all': lambda o: dl.dictify_all_complex_values(o['doc']),
             'undictify_circuit': lambda o: cdl.undictify_circuit(o['cdoc']),
             'generate_component': lambda o: cdl.generate_component(o['cdoc']['components'][0]),
+        }
+    if kind == 'schem':
+        from CircuitCalculator.SimpleCircuit import dump_load as sdl
+        from CircuitCalculator.SimpleCircuit.DiagramTranslator import circuit_translator
+        return {
+            'undictify_schematic': lambda o: circuit_translator(sdl.undictify_schematic(o['sdict'])),
+            'schematic_circuit_section': lambda o: cdl.undictify_circuit(o['sdict']['circuit']),
         }
     if kind == 'wave':
         return {
@@ -282,6 +300,19 @@ def make_pool(rng):
         doc = C17.rnd_doc(rng)
         pool.append({'kind': 'doc', 'entries': ents, 'cdoc': {'components': comps}, 'doc': C17._jsonify(doc if isinstance(doc, dict) else {'root': doc}),
                      'polar': {'abs': 10 ** rng.uniform(-2, 2), 'phase': rng.uniform(-180, 180)}})
+    # a saved schematic (the JSON document of SimpleCircuit.dump_load) with degree / sine phase options
+    try:
+        from . import C15
+        from ..gen import drawings as D
+        from CircuitCalculator.SimpleCircuit import dump_load as sdl
+        for _ in range(6):
+            prog, fam = C15.make_program(rng)
+            if fam == 'ac' and any(sy.get('args', {}).get('deg') or sy.get('args', {}).get('sin') for sy in prog['symbols']):
+                break
+        drawing = D.build(prog)
+        pool.append({'kind': 'schem', 'sdict': json.loads(sdl.serialize(drawing, 'json'))})
+    except Exception:
+        pass
     for _ in range(2):
         pool.append({'kind': 'wave', 'wave': rng.choice(['rect', 'tri', 'saw', 'cos', 'sin', 'const']), 'period': 10 ** rng.uniform(-3, 1),
                      'amplitude': rng.choice([1, -1]) * 10 ** rng.uniform(-1, 2), 'phase': rng.uniform(-7, 7), 'offset': rng.choice([0.0, 1.5])})
@@ -329,8 +360,12 @@ def judge(case, ctx, prefix='C20'):
             env = dict(os.environ)
             p = subprocess.run([sys.executable, '-s', '-c', f'from vmon.props.C20 import baseline_main; baseline_main({fn!r}, {order!r})'],
                                capture_output=True, text=True, cwd=os.path.dirname(os.path.dirname(os.path.dirname(os.path.abspath(__file__)))), env=env, timeout=600)
+            if p.returncode < 0:
+                # the interpreter that was running nothing but library operations on fresh objects was killed by a signal
+                ctx.violation(f'{prefix}/interpreter-crash', f'a fresh interpreter executing the pool operations in {order} order died with signal {-p.returncode}', {'stderr': p.stderr[-500:]})
+                return
             if p.returncode != 0:
-                raise RuntimeError('baseline interpreter failed: ' + p.stderr[-1500:])
+                raise RuntimeError(f'baseline interpreter failed (exit {p.returncode}): ' + p.stderr[-1500:])
             base[order] = json.loads(p.stdout)
     ctx.count('baseline_interpreters', 2)
     for key, v in base['fwd'].items():
@@ -395,7 +430,7 @@ def guards(m, tier):
     need = 2500 if tier == 'quick' else 25000
     if c.get('history_calls', 0) < need:
         r.append(f"history_calls = {c.get('history_calls', 0)} (<{need})")
-    for k in ('calls_net', 'calls_circ', 'calls_doc', 'calls_wave'):
-        if c.get(k, 0) < 100:
+    for k in ('calls_net', 'calls_circ', 'calls_doc', 'calls_wave', 'calls_schem'):
+        if c.get(k, 0) < (100 if k != 'calls_schem' else 20):
             r.append(f'{k} = {c.get(k, 0)}')
     return r
